@@ -9,6 +9,8 @@ func Scenarios(property string, thorough bool) []driver.Scenario {
 		return c11Scenarios(thorough)
 	case "C16":
 		return c16Scenarios(thorough)
+	case "C17":
+		return c17Scenarios(thorough)
 	case "C18":
 		return c18Scenarios(thorough)
 	case "C19":
